@@ -33,6 +33,18 @@ let frame_oracle id here what (prev : string array) (cur : string array) (touche
           propfail id (Printf.sprintf "%s changed %s %d, which it does not run on: before %s after %s" here what k prev.(k) s)
       end) cur
 
+(* the same with a set of copies that take part in the operation; "x" marks a copy that was not read *)
+let frame_oracle_set id here what (prev : string array) (cur : string array) (touched : int -> bool) =
+  if Array.length cur <> Array.length prev then
+    propfail id (Printf.sprintf "%s the number of %s changed from %d to %d" here what (Array.length prev) (Array.length cur))
+  else
+    Array.iteri (fun k s ->
+      if not (touched k) then begin
+        count "frame_checks";
+        if s <> prev.(k) then
+          propfail id (Printf.sprintf "%s changed %s %d, which takes no part in it: before %s after %s" here what k prev.(k) s)
+      end) cur
+
 let fork_oracle id here what (prev : string array) (cur : string array) (origin : int) (n : int) =
   let lp = Array.length prev in
   if Array.length cur <> lp + n then
@@ -81,11 +93,21 @@ let bd_act (s : sx) : bd_op act * int =
       (AStep (nat_of_int (int_of_sx a.(0)), BCommit (zi a.(1), zi a.(2), bool_of_sx a.(3), chs)), int_of_sx a.(0))
   | t -> failwith ("op " ^ t)
 
-let bd_priv_str (p : bd_priv) : string =
+(* rle: the tracked files of the large cases are recorded run-length encoded, (id (value count) ...) *)
+let rle_str (a : int list) : string =
+  let b = Buffer.create 256 in
+  let rec go v n = function
+    | [] -> if n > 0 then Buffer.add_string b (Printf.sprintf " (%d %d)" v n)
+    | x :: tl -> if n > 0 && x = v then go v (n + 1) tl
+                 else begin (if n > 0 then Buffer.add_string b (Printf.sprintf " (%d %d)" v n)); go x 1 tl end in
+  go 0 0 a; Buffer.contents b
+
+let bd_priv_str ?(rle = false) (p : bd_priv) : string =
   Printf.sprintf "%d %d %d (mf%s) (files%s)" (int_of_z p.bp_tick) (int_of_z p.bp_prev_tick) (int_of_z p.bp_merged_author)
     (String.concat "" (List.map (fun (k, b) -> Printf.sprintf " (%d %d)" (int_of_z k) (if b then 1 else 0)) p.bp_merged_files))
     (String.concat "" (List.map (fun (k, a) ->
-       " (" ^ String.concat " " (List.map string_of_int (int_of_z k :: List.map int_of_z a)) ^ ")") p.bp_files))
+       if rle then " (" ^ string_of_int (int_of_z k) ^ rle_str (List.map int_of_z a) ^ ")"
+       else " (" ^ String.concat " " (List.map string_of_int (int_of_z k :: List.map int_of_z a)) ^ ")") p.bp_files))
 
 (* the observed copy without the allocator use count, which the array model does not have *)
 let bd_obs_priv_str (s : string) : string =
@@ -104,25 +126,76 @@ let bd_shared_str (s : bd_shared) : string =
     (String.concat "" (List.map (fun (k, v) -> Printf.sprintf " (%d %d)" (int_of_z k) (int_of_z v)) s.bs_renames))
     (String.concat "" (List.map (fun k -> " " ^ string_of_int (int_of_z k)) s.bs_filehist))
 
+(* a hibernated copy is recorded as (hib mem|disk <crc> <bytes>): the image of its compressed arena *)
+let is_hib (s : string) : bool = String.length s >= 5 && String.sub s 0 5 = "(hib "
+
 let bd_case id c =
   let people = bool_of_sx (List.hd (args (field "people" c))) in
   let track = (match field_opt "track" c with Some t -> bool_of_sx (List.hd (args t)) | None -> false) in
+  let rle = (match field_opt "rle" c with Some t -> bool_of_sx (List.hd (args t)) | None -> false) in
   let ops = args (field "ops" c) and obs = args (field "obs" c) in
   let pf0 = !n_propfail in
   let st = ref bd_init in
   let prev = ref [| "(c 0 0 0 262142 (mf) (files))" |] in
+  (* what every copy reported when it was last awake: a hibernated copy is in that state *)
+  let logical = ref (Array.copy !prev) in
+  let forks = ref 0 in
   let stop = ref false in
   List.iteri (fun i ob ->
     if not !stop then begin
       let opsx = List.nth ops i in
       let here = Printf.sprintf "op#%d %s" i (str opsx) in
-      let (a, target) = bd_act opsx in
       if hang_check id here ob then stop := true else begin
       let r = atom (List.hd (args (field "r" ob))) in
       let cur = resolve !prev (args (field "copies" ob)) in
+      let log' = Array.mapi (fun k s -> if is_hib s then (if k < Array.length !logical then !logical.(k) else "?") else s) cur in
+      let kind = tag opsx in
+      if kind = "hib" || kind = "boot" then begin
+        (* Hibernate / Boot: memory management.  The model of both is the identity. *)
+        let target = int_of_sx (List.hd (args opsx)) in
+        count (if kind = "hib" then "hibernations" else "boots");
+        if r = "skip" then frame_oracle id here "copy" !prev cur None
+        else begin
+          frame_oracle id here "copy" !prev cur (Some target);
+          if target < Array.length cur && target < Array.length !prev then begin
+            let s = cur.(target) in
+            (match r with
+             | "ok" when kind = "hib" ->
+                 if is_hib s then count "hibernated_images"
+                 else if s <> !prev.(target) then
+                   propfail id (Printf.sprintf "%s: Hibernate changed what copy %d reports: before %s after %s" here target !prev.(target) s)
+             | "ok" ->
+                 if is_hib s then
+                   mismatch id (Printf.sprintf "%s: copy %d is still hibernated after Boot" here target)
+                 else begin
+                   count "boot_checks";
+                   if s <> !logical.(target) then
+                     propfail id (Printf.sprintf "%s: copy %d reports another state after Boot than before it was hibernated (a private instance reports the same): before %s after %s"
+                                    here target !logical.(target) s)
+                 end
+             | _ ->
+                 let what = Printf.sprintf "%s: %s of copy %d fails (%s); a private, never forked instance hibernates and boots without error" here
+                              (if kind = "hib" then "Hibernate" else "Boot") target r in
+                 if !forks > 0 then propfail id what else mismatch id what)
+          end
+        end;
+        let failed = (r = "err" || r = "panic") in
+        let mp = Array.of_list !st.privs in
+        if Array.length mp = Array.length log' then
+          Array.iteri (fun k s ->
+            if not (failed && k = target) then begin
+              count "copy_states_compared";
+              let ms = bd_priv_str ~rle mp.(k) and os = bd_obs_priv_str s in
+              if ms <> os then mismatch id (Printf.sprintf "%s copy %d: implementation %s model %s" here k os ms)
+            end) log'
+        else mismatch id (Printf.sprintf "%s: %d copies, model has %d" here (Array.length cur) (Array.length mp));
+        prev := cur; logical := log';
+        if failed then stop := true
+      end else begin
+      let (a, target) = bd_act opsx in
       (* --- the property, on the implementation's snapshots --- *)
       (match a, r with
-        | AFork (_, n), "fork" -> count "forks"; fork_oracle id here "copy" !prev cur target (int_of_nat n)
+        | AFork (_, n), "fork" -> incr forks; count "forks"; fork_oracle id here "copy" !prev cur target (int_of_nat n)
         | AStep _, ("ok" | "err" | "panic") -> count "steps"; frame_oracle id here "copy" !prev cur (Some target)
         | _, _ -> frame_oracle id here "copy" !prev cur None);
       (* --- the model --- *)
@@ -139,17 +212,18 @@ let bd_case id c =
         Array.iteri (fun k s ->
           if not (failed && k = target) then begin
             count "copy_states_compared";
-            let ms = bd_priv_str mp.(k) and os = bd_obs_priv_str s in
+            let ms = bd_priv_str ~rle mp.(k) and os = bd_obs_priv_str s in
             if ms <> os then mismatch id (Printf.sprintf "%s copy %d: implementation %s model %s" here k os ms)
-          end) cur;
+          end) log';
       if not failed then begin
         let ms = bd_shared_str st'.shd and os = str (field "sh" ob) in
         if ms <> os then mismatch id (Printf.sprintf "%s shared accumulators: implementation %s model %s" here os ms);
         List.iteri (fun k f -> if not (bool_of_sx f) then
           mismatch id (Printf.sprintf "%s copy %d does not see the same shared accumulators as the origin" here k)) (args (field "shsame" ob))
       end;
-      st := st'; prev := cur;
+      st := st'; prev := cur; logical := log';
       if failed then stop := true
+      end
       end
     end) obs;
   if List.length obs < List.length ops && not !stop && !n_propfail = pf0 then
@@ -318,6 +392,216 @@ let pl_case id c =
     prev := cur) obs;
   if List.length obs < List.length ops && !n_mismatch = mm0 then mismatch id "fewer observations than operations without a finding"
 
+
+(* ------------------------------------------------------------------------------------------ *)
+(* run: Pipeline.Run observed as an operation list over instance numbers (harness/cmd/c08run) *)
+
+(* "=": as in the previous snapshot; "x": not read (the branch of the instance is deleted): taken as unchanged *)
+let resolve_x (prev : string array) (cur : sx list) : string array =
+  Array.of_list (List.mapi (fun k s -> match s with
+    | A "=" | A "x" -> if k < Array.length prev then prev.(k) else "?"
+    | s -> str s) cur)
+
+let run_case id c =
+  let size = z (3600 * int_of_sx (List.hd (args (field "size" c)))) in
+  let commits = List.map pl_commit (args (field "commits" c)) in
+  let find cid = List.find_opt (fun cm -> int_of_z cm.c_id = cid) commits in
+  let o = field "obs" c in
+  let status = atom (List.hd (args (field "run" o))) in
+  let ops = args (field "xops" o) and obs = args (field "xobs" o) in
+  let pf0 = !n_propfail and mm0 = !n_mismatch in
+  List.iter (fun a -> mismatch id ("harness: " ^ str a)) (args (field "anomaly" o));
+  let st = ref pl_init in
+  let prev = ref [| "(p -1 0 () 0)" |] in
+  let prevm = ref [| "(m 0 0 0)" |] in
+  let prevb = ref [||] in
+  let logical = ref [||] in
+  let first_bd = ref true in
+  let t0_set = ref false in
+  let forks = ref 0 in
+  let stop = ref false in
+  List.iteri (fun i ob ->
+    let opsx = List.nth ops i in
+    let here = Printf.sprintf "op#%d %s" i (str opsx) in
+    let a = Array.of_list (List.map int_of_sx (args opsx)) in
+    let target = a.(0) in
+    let kind = tag opsx in
+    if !stop then () else begin
+    let r = List.hd (args (field "r" ob)) and twin = List.hd (args (field "twin" ob)) in
+    let cur = resolve_x !prev (args (field "copies" ob)) in
+    let curm = resolve_x !prevm (args (field "prs" ob)) in
+    let bl = args (field "bds" ob) in
+    if !first_bd then begin
+      (* the burndown item is optional: its first snapshot is the reference *)
+      first_bd := false;
+      prevb := Array.of_list (List.mapi (fun k s -> if k = 0 then str s else "?") bl);
+      prevb := Array.sub !prevb 0 (min 1 (Array.length !prevb));
+      logical := Array.copy !prevb
+    end;
+    let curb = resolve_x !prevb bl in
+    let logb = Array.mapi (fun k s -> if is_hib s then (if k < Array.length !logical then !logical.(k) else "?") else s) curb in
+    let has_bd = Array.length curb > 0 in
+    let parts = (match kind with "merge" -> Array.to_list a | _ -> [target]) in
+    let in_parts k = List.mem k parts in
+    let act = (match kind, tag r with
+      | "fork", "fork" -> Some (AFork (nat_of_int a.(0), nat_of_int a.(1)))
+      | "consume", ("ok" | "err" | "panic") ->
+          (match find a.(1) with Some cm -> Some (AStep (nat_of_int a.(0), (cm, z a.(2)))) | None -> None)
+      | _, _ -> None) in
+    (* --- the property, on the implementation's outputs --- *)
+    (match kind with
+     | "fork" ->
+         incr forks; count "forks";
+         fork_oracle id here "instance (TreeDiff, BlobCache, TicksSinceStart)" !prev cur target a.(1);
+         fork_oracle id here "probe" !prevm curm target a.(1);
+         if has_bd then fork_oracle id here "burndown instance" !prevb curb target a.(1)
+     | "consume" ->
+         count "steps";
+         frame_oracle id here "instance (TreeDiff, BlobCache, TicksSinceStart)" !prev cur (Some target);
+         frame_oracle id here "probe" !prevm curm (Some target);
+         if has_bd then frame_oracle id here "burndown instance" !prevb curb (Some target);
+         if tag twin <> "skip" then begin
+           count "twin_checks";
+           if str r <> str twin then
+             propfail id (Printf.sprintf "%s: the branch answers %s but private, never forked instances fed with the same commits answer %s"
+                            here (str r) (str twin))
+         end;
+         (* the branch of the plan is served by an instance that has consumed exactly the commits of the branch *)
+         (match field_opt "lin" ob, field_opt "hist" ob with
+          | Some l, Some m ->
+              count "lineage_checks";
+              let ls = String.concat " " (List.map str (args l)) and ms = String.concat " " (List.map str (args m)) in
+              if ls <> ms then
+                propfail id (Printf.sprintf "%s: branch %s of the plan consists of the commits (%s) so far, but the instance that is given this commit has consumed (%s): the branch is not served by a private instance"
+                               here (str (List.hd (args (field "branch" ob)))) ls ms)
+          | _, _ -> ());
+         (match field_opt "lin" ob, field_opt "mem" ob with
+          | Some l, Some m ->
+              count "probe_lineage_checks";
+              let ls = String.concat " " (List.map str (args l)) and ms = String.concat " " (List.map str (args m)) in
+              if ls <> ms then
+                propfail id (Printf.sprintf "%s: branch %s of the plan consists of the commits (%s) so far, but the by-value probe that is handed this commit remembers (%s): the branch is not served by a private instance"
+                               here (str (List.hd (args (field "branch" ob)))) ls ms)
+          | _, _ -> ());
+         (match field_opt "saw" ob, tag r with
+          | Some sw, "ok" ->
+              let s = List.map int_of_sx (args sw) in
+              let t = int_of_sx (List.hd (args (field "tick" r))) in
+              let nch = List.length (args (field "changes" r)) and nca = List.length (args (field "cache" r)) in
+              if s <> [t; nch; nca] then
+                propfail id (Printf.sprintf "%s: the probe of the branch was handed tick %d, %d changes, %d blobs; the items of its branch produced tick %d, %d changes, %d blobs"
+                               here (List.nth s 0) (List.nth s 1) (List.nth s 2) t nch nca)
+          | _, _ -> ())
+     | "merge" ->
+         count "merges";
+         frame_oracle_set id here "instance (TreeDiff, BlobCache, TicksSinceStart)" !prev cur in_parts;
+         frame_oracle_set id here "probe" !prevm curm in_parts;
+         if has_bd then frame_oracle_set id here "burndown instance" !prevb curb in_parts
+     | "hib" | "boot" ->
+         count (if kind = "hib" then "hibernations" else "boots");
+         frame_oracle id here "instance (TreeDiff, BlobCache, TicksSinceStart)" !prev cur None;
+         frame_oracle id here "probe" !prevm curm None;
+         frame_oracle id here "burndown instance" !prevb curb (Some target);
+         if target < Array.length curb && target < Array.length !prevb then begin
+           let s = curb.(target) in
+           (match tag r with
+            | "ok" when kind = "hib" ->
+                if is_hib s then count "hibernated_images"
+                else if s <> !prevb.(target) then
+                  propfail id (Printf.sprintf "%s: Hibernate changed what burndown instance %d reports: before %s after %s" here target !prevb.(target) s)
+            | "ok" ->
+                if is_hib s then mismatch id (Printf.sprintf "%s: burndown instance %d is still hibernated after Boot" here target)
+                else begin
+                  count "boot_checks";
+                  if s <> !logical.(target) then
+                    propfail id (Printf.sprintf "%s: burndown instance %d reports another state after Boot than before it was hibernated (a private instance reports the same): before %s after %s"
+                                   here target !logical.(target) s)
+                end
+            | t ->
+                let what = Printf.sprintf "%s: %s of burndown instance %d fails (%s); a private, never forked instance hibernates and boots without error" here
+                             (if kind = "hib" then "Hibernate" else "Boot") target t in
+                if !forks > 1 then propfail id what else mismatch id what)
+         end
+     | k -> mismatch id (here ^ ": unknown operation"));
+    (* --- the model of the plumbing items --- *)
+    (match act with
+     | None -> ()
+     | Some act ->
+       let (st', out) = pl_do size act !st in
+       (match act with AStep (_, (_, ix)) when int_of_z ix = 0 && tag r = "ok" -> t0_set := true | _ -> ());
+       (match out, tag r with
+        | None, "fork" -> ()
+        | Some o, "err" -> if o.po_changes <> None then mismatch id (here ^ " implementation refuses the commit, the model does not")
+        | Some o, "ok" ->
+            (match o.po_changes with
+             | None -> mismatch id (here ^ " the model refuses the commit, the implementation does not")
+             | Some l ->
+                 let ms = "(changes" ^ String.concat "" (List.map (fun x -> " " ^ tchange_str x) l) ^ ")" in
+                 let os = str (field "changes" r) in
+                 if ms <> os then mismatch id (Printf.sprintf "%s changes: implementation %s model %s" here os ms);
+                 let mk = List.map int_of_z o.po_cache in
+                 let ok = List.map (fun e -> int_of_sx (List.hd (list_of_sx e))) (args (field "cache" r)) in
+                 if mk <> ok then mismatch id (Printf.sprintf "%s cache keys: implementation %s model %s" here (ints ok) (ints mk));
+                 if !t0_set then begin
+                   let ot = int_of_sx (List.hd (args (field "tick" r))) in
+                   if ot <> int_of_z o.po_tick then mismatch id (Printf.sprintf "%s tick: implementation %d model %d" here ot (int_of_z o.po_tick))
+                 end else count "ticks_outside_domain")
+        | _, t -> mismatch id (Printf.sprintf "%s result shape %s" here t));
+       st := st');
+    let mp = Array.of_list !st.privs in
+    if Array.length mp <> Array.length cur then
+      mismatch id (Printf.sprintf "%s: %d instances, model has %d" here (Array.length cur) (Array.length mp))
+    else
+      Array.iteri (fun k s ->
+        if k >= Array.length !prev || s <> !prev.(k) || in_parts k then begin
+        count "copy_states_compared";
+        match parse_sx s with
+        | L [A "p"; pt; pc; keys; ptick] ->
+            let p = mp.(k) in
+            let tree_ok = (match p.pp_td.tp_tree, int_of_sx pt with
+              | None, -1 -> true
+              | Some t, cid when cid > 0 -> (match find cid with Some cm -> cm.c_tree = t | None -> false)
+              | _, _ -> false) in
+            if not tree_ok then mismatch id (Printf.sprintf "%s instance %d: previous tree differs (implementation: tree of commit %s)" here k (str pt));
+            if int_of_sx pc <> int_of_z p.pp_td.tp_commit then
+              mismatch id (Printf.sprintf "%s instance %d: previous commit %s, model %d" here k (str pc) (int_of_z p.pp_td.tp_commit));
+            if ints_of_sx keys <> List.map int_of_z p.pp_bc then
+              mismatch id (Printf.sprintf "%s instance %d: blob cache %s, model %s" here k (str keys) (ints (List.map int_of_z p.pp_bc)));
+            if !t0_set && int_of_sx ptick <> int_of_z p.pp_tk then
+              mismatch id (Printf.sprintf "%s instance %d: previousTick %s, model %d" here k (str ptick) (int_of_z p.pp_tk))
+        | _ -> mismatch id (Printf.sprintf "%s instance %d: snapshot shape %s" here k s)
+        end) cur;
+    if !t0_set then begin
+      let sh = field "sh" ob in
+      if (match args sh with [A "="] -> false | _ -> true) then begin
+        let ms = Printf.sprintf "(sh %d (%s))" (int_of_z !st.shd.ts_tick0)
+          (String.concat " " (List.map (fun (t, l) -> Printf.sprintf "(%d %s)" (int_of_z t) (ints (List.map int_of_z l))) !st.shd.ts_commits)) in
+        if ms <> str sh then mismatch id (Printf.sprintf "%s shared tick0/registry: implementation %s model %s" here (str sh) ms)
+      end
+    end;
+    List.iteri (fun k f -> if not (bool_of_sx f) then
+      mismatch id (Printf.sprintf "%s instance %d does not see the same tick0/registry as the origin" here k)) (args (field "shsame" ob));
+    prev := cur; prevm := curm; prevb := curb; logical := logb;
+    if tag r = "err" || tag r = "panic" then stop := true
+    end) obs;
+  (* at the end every instance is read once more: whatever was not read in between must be as it was *)
+  (match field_opt "final" o with
+   | Some f when not !stop && args f <> [] ->
+       let chk what prev l =
+         List.iteri (fun k s -> match s with
+           | A "=" | A "x" -> ()
+           | s -> if k < Array.length prev && not (is_hib prev.(k)) && str s <> prev.(k) then
+                    mismatch id (Printf.sprintf "at the end %s %d differs from what it last reported: before %s after %s" what k prev.(k) (str s))) l in
+       chk "instance" !prev (args (field "copies" f));
+       chk "probe" !prevm (args (field "prs" f));
+       chk "burndown instance" !prevb (args (field "bds" f));
+       List.iteri (fun k b -> if not (bool_of_sx b) then
+         mismatch id (Printf.sprintf "at the end instance %d does not see the same tick0/registry as the origin" k)) (args (field "shsame" f))
+   | _ -> ());
+  if status <> "ok" && !n_propfail = pf0 && !n_mismatch = mm0 then
+    mismatch id (Printf.sprintf "Pipeline.Run ends with %s although every observed operation agrees with the private twins" status);
+  if List.length obs <> List.length ops then mismatch id "operations and observations differ in number"
+
 let () =
   iter_cases (fun id c ->
     let kind = atom (List.hd (args (field "kind" c))) in
@@ -325,4 +609,5 @@ let () =
     if pre 2 && String.sub kind 0 2 = "bd" then (count "bd_cases"; bd_case id c)
     else if pre 2 && String.sub kind 0 2 = "rb" then (count "rb_cases"; rb_case id c)
     else if pre 2 && String.sub kind 0 2 = "pl" then (count "pl_cases"; pl_case id c)
+    else if pre 3 && String.sub kind 0 3 = "run" then (count "run_cases"; run_case id c)
     else failwith ("unknown kind " ^ kind))
